@@ -108,6 +108,9 @@ let () =
     | L [ _; fin; p ] ->
         "{\"r\":\"ok\",\"backend_ok\":" ^ (if backend_ok (as_pops fin) (as_program p) then "true" else "false") ^ "}"
     | _ -> raise (Bad "backend_ok"));
+  register "strip_ok" (function
+    | L [ _; rs ] -> "{\"r\":\"ok\",\"strip_ok\":" ^ (if strip_ok (as_pops rs) then "true" else "false") ^ "}"
+    | _ -> raise (Bad "strip_ok"));
   register "finalize_ok" (function
     | L [ _; rs ] -> "{\"r\":\"ok\",\"finalize_ok\":" ^ (if finalize_ok (as_pops rs) then "true" else "false") ^ "}"
     | _ -> raise (Bad "finalize_ok"))
